@@ -210,6 +210,25 @@ def run(prog, rep, tier, repo):
     iv = some(w.get(fields.get('information_matrix'), ()))
     if not (tag(iv) == 'call' and short(iv[1]) == 'compute_ddbeta' and iv[2][1] == x):
         problems.append('self.information_matrix is not compute_ddbeta(x, ..)')
+    else:
+        # freshness: the stored object must not be one that a callee received by &mut (or that is written through) in this body --
+        # the scoring step's Hessian buffer is penalised in place by apply_ddbeta_penalty
+        from ..ir import root
+        mutated = {}
+        for c in f.calls():
+            for a, ty in zip(c.args, c.argtys or ()):
+                if isinstance(ty, str) and ty.startswith('&mut') and tag(a) == 'call' and c.path and not c.path.endswith('deref_mut'):
+                    mutated[a] = short(c.path)
+        for s_ in f.stores():
+            r = s_.target
+            while tag(r) in ('index', 'field', 'deref'):
+                r = r[1]
+            if tag(r) == 'call' and r is not s_.target:
+                mutated.setdefault(r, 'an element store')
+        if iv in mutated:
+            problems.append('self.information_matrix is the buffer that %s modifies in place (it is no longer the unpenalised Fisher information '
+                            'compute_ddbeta returned: with alpha > 0 the ridge term is added to its diagonal, so the reported covariance and standard '
+                            'errors are too small)' % mutated[iv])
     (rep.viol if problems else rep.ok)('fit-loop', key, '; '.join(problems) if problems else 'coef, deviance(y, mu) and the unpenalised information are stored', site_of(f.body))
     rep.floor('fit-loop', 4, 'newton step, offsets, error exit, stored results')
 
